@@ -5,7 +5,7 @@ CONSTANTS
   Cids = {"b0", "b1", "b2", "img", "idx", "idy", "sub", "bad"}
   BlobIds = {}
   ManIds = {}
-  Cat <- MCCat
+  Cat <- FCat
   UploadIds = {"u1", "u2"}
   ImmChoices = {FALSE, TRUE}
   BlockSize = 8
@@ -14,8 +14,9 @@ CONSTANTS
   Chars <- MCChars
   MCKinds = {"checker", "select"}
   ErrIds = {"E_DENIED", "E_UNKNOWN", "E_CUSTOM1"}
-  MaxSteps = 3
+  MaxSteps = 2
   HostileSteps = 1
+  AllScopes = TRUE
 INVARIANTS FTypeOK
 PROPERTIES RejectedNeverReachesBackend ListingFiltered ErrorIsPolicyError AllowedIsTransparent SelectErrorKinds ConsultationsExact
 VIEW FView
